@@ -393,7 +393,19 @@ Definition APP_RELAY : Z := 4294967295.
 
 Definition pres_get {A} (p : pres A) : option A := match p with Present a => Some a | _ => None end.
 
-(* receive_cer *)
+(* receive_cer.  RFC 6733 5.6.4 election: the other connections towards the same peer (by node name:
+   established ones and those still being dialled) are removed when the local host name is the greater
+   one, otherwise the new connection is refused with ELECTION_LOST. *)
+Definition RC_ELECTION_LOST : Z := 4003.
+Fixpoint close_all (n : node) (cids : list nat) (reason : Z) : node * list output :=
+  match cids with
+  | [] => (n, [])
+  | k :: r => let '(n1, o1) := close_conn n k reason in
+              let '(n2, o2) := close_all n1 r reason in (n2, (o1 ++ o2)%list)
+  end.
+Definition election_rivals (n : node) (cid : nat) (host : string) : list nat :=
+  List.map c_id (List.filter (fun c => negb (Nat.eqb (c_id c) cid) && String.eqb (c_node_name c) host) (n_conns n)).
+
 Definition recv_cer (n : node) (cid : nat) (m : msg) : node * list output :=
   match pres_get (m_origin m) with
   | None => (n, [])      (* cannot happen after validation; AttributeError path handled by the caller *)
@@ -403,35 +415,53 @@ Definition recv_cer (n : node) (cid : nat) (m : msg) : node * list output :=
           let n1 := set_conns n (upd_conn (n_conns n) cid (fun c => set_cstate c SClosing)) in
           send_message n1 cid (answer_of m (Some RC_UNKNOWN_PEER) [])
       | Some _ =>
-          let n1 := set_conns n (upd_conn (n_conns n) cid (fun c =>
+          let n0 := set_conns n (upd_conn (n_conns n) cid (fun c =>
                       if String.eqb (c_node_name c) "" then set_cident c host (c_host c) (c_auth c) (c_acct c) else c)) in
-          let sup_auth := inter_z (node_auth n1) (m_auth m) in
-          let sup_acct := inter_z (node_acct n1) (m_acct m) in
-          let relay := mem_z APP_RELAY (m_auth m) || mem_z APP_RELAY (m_acct m) in
-          match sup_auth, sup_acct, relay with
-          | [], [], false => send_message n1 cid (answer_of m (Some RC_NO_COMMON_APP) [])
-          | _, _, _ =>
-              let n2 := set_conns n1 (upd_conn (n_conns n1) cid (fun c => set_cident c (c_node_name c) host sup_auth sup_acct)) in
-              let n3 := flag_ready (assign_peer_conn n2 cid) cid in
-              send_message n3 cid (answer_of m (Some RC_SUCCESS) [])
+          let rivals := election_rivals n0 cid host in
+          let won := String.ltb host (g_host (n_cfg n0)) in
+          match rivals, won with
+          | _ :: _, false =>
+              let n1 := set_conns n0 (upd_conn (n_conns n0) cid (fun c => set_cstate c SClosing)) in
+              send_message n1 cid (answer_of m (Some RC_ELECTION_LOST) [])
+          | _, _ =>
+              let '(n1, oel) := close_all n0 rivals R_CLEAN in
+              let sup_auth := inter_z (node_auth n1) (m_auth m) in
+              let sup_acct := inter_z (node_acct n1) (m_acct m) in
+              let relay := mem_z APP_RELAY (m_auth m) || mem_z APP_RELAY (m_acct m) in
+              match sup_auth, sup_acct, relay with
+              | [], [], false =>
+                  let '(n2, o) := send_message n1 cid (answer_of m (Some RC_NO_COMMON_APP) []) in (n2, (oel ++ o)%list)
+              | _, _, _ =>
+                  let n2 := set_conns n1 (upd_conn (n_conns n1) cid (fun c => set_cident c (c_node_name c) host sup_auth sup_acct)) in
+                  let n3 := flag_ready (assign_peer_conn n2 cid) cid in
+                  let '(n4, o) := send_message n3 cid (answer_of m (Some RC_SUCCESS) []) in (n4, (oel ++ o)%list)
+              end
           end
       end
   end.
 
-(* receive_cea *)
+(* receive_cea: only while the answer is awaited (CONNECTED); a result other than 2001, or an Origin-Host
+   other than the peer that was dialled, closes the connection *)
 Definition recv_cea (n : node) (cid : nat) (m : msg) : node * list output :=
-  match m_result m with
-  | Present 2001 =>
-      (* the negotiated application ids are stored before Origin-Host is read *)
-      let n1 := set_conns n (upd_conn (n_conns n) cid (fun c =>
-                  set_cident c (c_node_name c) (c_host c) (inter_z (node_auth n) (m_auth m)) (inter_z (node_acct n) (m_acct m)))) in
-      match pres_get (m_origin m) with
-      | None => (n1, [])       (* AttributeError in the handler of an ANSWER: nothing is sent *)
-      | Some host =>
-          let n2 := set_conns n1 (upd_conn (n_conns n1) cid (fun c => set_cident c (c_node_name c) host (c_auth c) (c_acct c))) in
-          (flag_ready (assign_peer_conn n2 cid) cid, [])
+  match get_conn n cid with
+  | None => (n, [])
+  | Some c0 =>
+      if negb (cstate_eqb (c_state c0) SConnected) then (n, [])
+      else
+      match m_result m with
+      | Present 2001 =>
+          match pres_get (m_origin m) with
+          | None => (n, [])       (* AttributeError in the handler of an ANSWER: nothing is sent *)
+          | Some host =>
+              if negb (String.eqb (c_node_name c0) "") && negb (String.eqb host (c_node_name c0))
+              then close_conn n cid R_CER_REJECTED
+              else
+              let n1 := set_conns n (upd_conn (n_conns n) cid (fun c =>
+                          set_cident c (c_node_name c) host (inter_z (node_auth n) (m_auth m)) (inter_z (node_acct n) (m_acct m)))) in
+              (flag_ready (assign_peer_conn n1 cid) cid, [])
+          end
+      | _ => close_conn n cid R_CER_REJECTED
       end
-  | _ => close_conn n cid R_CER_REJECTED
   end.
 
 (* receive_dwr / receive_dwa / receive_dpr / receive_dpa *)
